@@ -20,13 +20,6 @@ pub assume_specification<T: std::ops::Deref> [std::option::Option::<T>::as_deref
 pub broadcast axiom fn axiom_string_deref_view(s: &String)
     ensures #[trigger] deref_target(s)@ == s@;
 
-/// result of `str::to_lowercase`; uninterpreted: nothing is assumed about non-ASCII text.
-pub uninterp spec fn str_lower(s: Seq<char>) -> Seq<char>;
-
-// TRUSTED[str-to-lowercase]: names the result of str::to_lowercase as the uninterpreted function str_lower of the text.
-pub assume_specification [str::to_lowercase] (s: &str) -> (r: String)
-    ensures r@ == str_lower(s@);
-
 /// Lexicographic comparison of two sequences by the element order (shorter prefix lower).
 pub open spec fn seq_lex<T: Ord>(a: Seq<T>, b: Seq<T>) -> Ordering
     decreases a.len()
